@@ -2,7 +2,7 @@ SPECIFICATION Spec
 CONSTANTS
   Pushes <- PushesT
   Caps = {1, 2, 3, 4}
-  MaxOps = 6
+  MaxOps = 12
   EmitOn = FALSE
 VIEW view
 INVARIANTS TypeOK Ordered Bounded NoDup
